@@ -27,7 +27,8 @@ RULE = ("scenarios: file accessor (deep/flat x gzip/no-gzip) with 2 chunks "
         "compressed_segmentation; sharded accessor (in-memory / on-disk "
         "buffers x raw/gzip) with one shard pre-written, operation in "
         "{write + close a new shard, rewrite + close the existing shard, "
-        "read a chunk}. Points = every system call under the dataset root "
+        "read a chunk}, plus two scenarios in which the temporary buffer "
+        "files of the on-disk strategy are points as well. Points = every system call under the dataset root "
         "issued by the operation; menu per call kind: errno {ENOSPC, EACCES, "
         "EIO, EROFS | EIO, EACCES, ENOENT}, short write of 1 and n-1 bytes "
         "(retry fails with ENOSPC), kill before / after. Bound 1 (quick), "
@@ -97,6 +98,10 @@ def sharded_scenarios():
             for op in ("write-new-shard", "rewrite-shard", "read"):
                 out.append({"kind": "sharded", "strategy": strategy,
                             "enc": enc, "op": op})
+    # the temp buffers of the on-disk strategy are I/O of store/close too
+    for op in ("write-new-shard", "rewrite-shard"):
+        out.append({"kind": "sharded", "strategy": "on disk", "enc": "raw",
+                    "op": op, "watch_tmp": True})
     return out
 
 
@@ -282,7 +287,14 @@ def execute(scn, deviations, use_sim=True):
     d = sandbox.fresh_dir("c18")
     try:
         model = setup(d, scn)
-        sim = iosim.IOSim(d) if use_sim else _NoSim()
+        tmpd = None
+        if scn["kind"] == "sharded" and scn["strategy"] == "on disk" \
+                and scn.get("watch_tmp"):
+            import tempfile
+            tmpd = sandbox.fresh_dir("c18t")
+            old_tmp = tempfile.tempdir
+            tempfile.tempdir = tmpd
+        sim = iosim.IOSim(d, extra_root=tmpd) if use_sim else _NoSim()
         sim.deviations = dict(deviations)
         outcome = None
         with sim:
@@ -296,6 +308,10 @@ def execute(scn, deviations, use_sim=True):
                 outcome = ("exc", type(exc).__name__, str(exc)[:120],
                            [c.__name__ for c in type(exc).__mro__])
         sandbox.drop_captured_exit_handlers()
+        if tmpd is not None:
+            import tempfile
+            tempfile.tempdir = old_tmp
+            sandbox.rm(tmpd)
         t = dir_tree(d)
         # observations with a fresh handle, faults off
         obs = {}
@@ -496,7 +512,8 @@ def conformance_candidates(scns=None):
     from mc import conformance
     out = []
     for scn in (scns or (file_scenarios() + sharded_scenarios())):
-        if scn["kind"] == "sharded" and scn["strategy"] == "in memory":
+        if scn["kind"] == "sharded" and (scn["strategy"] == "in memory"
+                                         or scn.get("watch_tmp")):
             continue      # the child opens the dataset the documented way
         ref = execute(scn, {})
         pts = ref["points"]
